@@ -713,7 +713,17 @@ func progressDiag(nw *Network, tx []byte) interface{} {
 					c = sn.Idx
 				}
 				r, _ := h.VerifRound(u)
-				lu = append(lu, fmt.Sprintf("creator=%d index=%d round=%d txs=%d itxs=%d", c, ev.Index(), r, len(ev.Transactions()), len(ev.InternalTransactions())))
+				extra := ""
+				if re := nw.Rec.Events[u]; re != nil {
+					kids := 0
+					for _, o := range nw.Rec.Order {
+						if o.SelfParent == u || o.OtherParent == u {
+							kids++
+						}
+					}
+					extra = fmt.Sprintf(" first_node=%d first_step=%d children_anywhere=%d", re.FirstNode, re.FirstStep, kids)
+				}
+				lu = append(lu, fmt.Sprintf("creator=%d index=%d round=%d txs=%d itxs=%d%s", c, ev.Index(), r, len(ev.Transactions()), len(ev.InternalTransactions()), extra))
 			}
 		}
 		d["loaded_undetermined"] = lu
